@@ -54,7 +54,7 @@ decreases (if old(self).lookaheads@.len() == 0 { 0int } else { 1int }), 1int
     props=['C01', 'C04', 'C05', 'C07', 'C12'],
     edits=[
         Ins('body_start', None, '''
-broadcast use axiom_clen_bounds, axiom_terminal_id_key_model, axiom_fx_valid;
+broadcast use lemma_clen_bounds, axiom_terminal_id_key_model, axiom_fx_valid;
 let ghost d = core(*self);
 let ghost cls = cls_of(match_char_class);
 let ghost rem0 = char_indices.remaining();
@@ -150,7 +150,7 @@ let ghost t = next.0 as int;
 let ghost tid = d.end_states@[t].1;
 let ghost fired = fires(d, cls, state.0 as int, i, c);
 proof {
-    broadcast use axiom_clen_bounds, axiom_terminal_id_key_model, axiom_fx_valid;
+    broadcast use lemma_clen_bounds, axiom_terminal_id_key_model, axiom_fx_valid;
     assert((*cc, *next) == tr[i]);
     lemma_blen_take_next(text, k);
     assert(0 <= t < d.states@.len());
@@ -315,7 +315,7 @@ decreases 1int, 0int
     props=['C04', 'C05', 'C07'],
     edits=[
         Ins('body_start', None, '''
-broadcast use axiom_clen_bounds, axiom_terminal_id_key_model, axiom_fx_valid;
+broadcast use lemma_clen_bounds, axiom_terminal_id_key_model, axiom_fx_valid;
 let ghost d = core(*self.nfa);
 let ghost rem = char_indices.remaining();
 proof { lemma_len0_no_key(d); }
